@@ -211,7 +211,16 @@ func (r *RigS) onRegistration(st *SimStream) {
 		if st.SeekNil {
 			// a stream that was replicated before comes back without a position: everything published meanwhile is skipped
 			if un := r.unacked(tgt, st.Coll, st.Shard, from, len(log)); len(un) > 0 {
-				r.s.Violate("C05", "resume_ignores_checkpoint", "stream %s of task %s is registered again without a position; unacknowledged messages %v of its domain are skipped", st.Key(), owner, un)
+				cls := ""
+				if c := r.collByID[st.Coll]; c != nil && c.Down && !r.hasCheckpoint(st.Coll, st.PCh) {
+					// known finding: for a collection that existed downstream before the task (no create request, no start
+					// position stored) nothing is persisted until the first pack of the channel is acknowledged and recorded;
+					// a stop before that starts the stream at the end of the channel again
+					cls = "_no_checkpoint_yet_for_preexisting_collection"
+					r.st.NoCkptSkipped[key] = append(r.st.NoCkptSkipped[key], un...)
+					r.s.Probe("restart_before_first_checkpoint_of_preexisting_collection")
+				}
+				r.s.Violate("C05", "resume_ignores_checkpoint"+cls, "stream %s of task %s is registered again without a position; unacknowledged messages %v of its domain are skipped", st.Key(), owner, un)
 			}
 			return
 		}
@@ -245,6 +254,12 @@ func (r *RigS) onRegistration(st *SimStream) {
 			r.s.Probe("drop_message_below_seek_time")
 		}
 	}
+	if r.droppedAtSource(st.Coll) {
+		// rows of a collection that is dropped at the source need not arrive (the reader leaves them out, the replayed drop
+		// may overtake them): as in the checkpoint and liveness rules, a resume of its stream is not judged
+		r.s.Probe("resume_of_dropped_collection_not_judged")
+		return
+	}
 	var skipped, byTime []int64
 	skippedForwarded := true
 	for i, e := range log {
@@ -268,6 +283,8 @@ func (r *RigS) onRegistration(st *SimStream) {
 			// the persisted checkpoint had passed messages that travelled in forwarded packs (KF forwarded-pack-overtaken)
 			cls = "_forwarded_pack_overtaken"
 			r.st.Overtaken[key] = append(r.st.Overtaken[key], skipped...)
+		} else if r.consequenceOfNoCheckpoint(key, skipped) {
+			cls = "_after_start_without_checkpoint"
 		} else if r.consequenceOfTimeSkip(key, skipped) {
 			// an earlier resume of this stream dropped these very messages through the time filter; the stream went on, the
 			// checkpoint passed them, and this resume starts behind them
@@ -301,6 +318,40 @@ func (r *RigS) onRegistration(st *SimStream) {
 		}
 		r.s.Violate("C05", "resume_skips_unacked"+cls, "stream %s of task %s registered at msg id %d / ts %d: messages (tags %v) after that message id lie below the seek time and are dropped although the downstream never acknowledged them", st.Key(), owner, st.SeekSeq, st.SeekTs, byTime)
 	}
+}
+
+// hasCheckpoint: some task record holds a position of this collection on this source channel.
+func (r *RigS) hasCheckpoint(coll int64, pch string) bool {
+	poss, err := r.storePositions()
+	if err != nil {
+		return true
+	}
+	for _, p := range poss {
+		if p.CollectionID == coll {
+			if pi := p.Positions[pch]; pi != nil && pi.DataPair != nil {
+				return true
+			}
+		}
+	}
+	return false
+}
+
+// consequenceOfNoCheckpoint: every tag is one that a restart skipped because no checkpoint of a collection that existed
+// downstream before the task had been stored yet (see onRegistration).
+func (r *RigS) consequenceOfNoCheckpoint(key string, tags []int64) bool {
+	if len(tags) == 0 || len(r.st.NoCkptSkipped[key]) == 0 {
+		return false
+	}
+	for _, t := range tags {
+		found := false
+		for _, x := range r.st.NoCkptSkipped[key] {
+			found = found || x == t
+		}
+		if !found {
+			return false
+		}
+	}
+	return true
 }
 
 // consequenceOfTimeSkip: every tag is one that a resume dropped through the re-stamped checkpoint time (see onRegistration).
@@ -764,9 +815,14 @@ func (r *RigS) checkCheckpoints() {
 				}
 				if r.st.StaleAck[fmt.Sprintf("%d|%d|%d", tgt, p.CollectionID, shard)] || r.checkpointFromEarlierRegistration(p.TaskID, tgt, p.CollectionID, shard, seq) {
 					cls = "_stale_pack_after_resume"
+					// (remembered: a later resume from this checkpoint skips the same messages)
+					r.st.StaleAck[fmt.Sprintf("%d|%d|%d", tgt, p.CollectionID, shard)] = true
 				}
 				if r.consequenceOfTimeSkip(key, un) {
 					cls = "_after_restamped_time_skip"
+				}
+				if r.consequenceOfNoCheckpoint(key, un) {
+					cls = "_after_start_without_checkpoint"
 				}
 				if cls == "" && unForwarded {
 					// every unacknowledged message travelled in a forwarded pack (on another downstream channel), while later
@@ -1519,6 +1575,9 @@ func (r *RigS) finalOracles() {
 				if !es[i-1].ok && r.consequenceOfTimeSkip(key, []int64{es[i-1].tag}) {
 					cls = "_after_restamped_time_skip"
 				}
+				if !es[i-1].ok && r.consequenceOfNoCheckpoint(key, []int64{es[i-1].tag}) {
+					cls = "_after_start_without_checkpoint"
+				}
 				if !es[i-1].ok && r.consequenceOfOvertaking(key, []int64{es[i-1].tag}) {
 					cls = "_forwarded_pack_overtaken"
 				}
@@ -1587,6 +1646,9 @@ func (r *RigS) finalOracles() {
 			}
 			if r.consequenceOfTimeSkip(key, lost) {
 				cls = "_after_restamped_time_skip"
+			}
+			if r.consequenceOfNoCheckpoint(key, lost) {
+				cls = "_after_start_without_checkpoint"
 			}
 			if r.consequenceOfOvertaking(key, lost) {
 				cls = "_forwarded_pack_overtaken"
@@ -1767,6 +1829,9 @@ func (r *RigS) recoveryPhase(drain func()) {
 		}
 		if r.consequenceOfTimeSkip(key, lost) {
 			cls = "_after_restamped_time_skip"
+		}
+		if r.consequenceOfNoCheckpoint(key, lost) {
+			cls = "_after_start_without_checkpoint"
 		}
 		if r.consequenceOfOvertaking(key, lost) {
 			cls = "_forwarded_pack_overtaken"
